@@ -935,6 +935,15 @@ func (g *Gen) loopModSet(li *loopInfo) map[string]*Sort {
 	mods := map[string]*Sort{}
 	for b := range li.body {
 		for n, so := range g.blockMods[b] {
+			if strings.HasPrefix(n, "*struct:") {
+				pre := "F." + strings.TrimPrefix(n, "*struct:") + "."
+				for hn, hso := range g.stSorts {
+					if strings.HasPrefix(hn, pre) {
+						mods[hn] = hso
+					}
+				}
+				continue
+			}
 			if n == "*" {
 				for hn, hso := range g.stSorts {
 					if strings.HasPrefix(hn, "F.") || strings.HasPrefix(hn, "E.") || strings.HasPrefix(hn, "P.") || strings.HasPrefix(hn, "M.") {
